@@ -14,6 +14,10 @@ def run(ctx):
         # an engine that ended by itself (accept failing for good) must report the shutdown through its handle as well
         tf = system.record(ctx, "accept-fatal", test="TestVerifFaults", env={"VERIF_FAULT_SET": "fatal"})
         system.validate(ctx, tf, ["TrLife"], "engine ended by a fatal accept error")
+        # the duplication of the descriptor inside Register / Enroll / Dial failing (fcntl EMFILE): still one result per call,
+        # an error or a usable connection
+        tr = system.record(ctx, "register-faults", test="TestVerifRegisterFaults")
+        system.validate(ctx, tr, ["TrLife", "TrFd"], "Register / Enroll / Dial with a failing dup")
     # the engine model: inShutdown (what Stop polls) is only set after every loop has exited, every connection was
     # closed and the listeners are gone; the recorded shutdowns must be behaviours of that model
     system.engine_design(ctx)
